@@ -10,14 +10,14 @@ CHECKS = {
     "C01": dict(
         category="model_checking",
         technique="explicit-state exploration of the real lot matcher over the prefix tree of histories (bounded exhaustive, deviation-bounded), order monitor + reference matcher",
-        text="Every valid single-asset history over a 14-symbol alphabet up to depth 4 (thorough 5) is executed from scratch through compute_tax under each of fifo/lifo/hifo/lofo, every two-year (thorough: three-year) method schedule, with 1 (2) deviations in disposal type / UTC offset / amount scale and with sheet order reversed; on every node a monitor checks that no strictly better-ranked lot with balance was passed over, and tie-free traces must equal the reference matcher's pairing. This is the deepest level the family offers for a sequential matcher: all interleavings within the bound, none sampled. Also: a purchase carrying a large fiat fee at every purchase position (fee-inclusive unit cost ranks differently from spot price) and same-instant events falling under different methods of a schedule.",
+        text="Every valid single-asset history over a 14-symbol alphabet up to depth 4 (thorough 5) is executed from scratch through compute_tax under each of fifo/lifo/hifo/lofo, every two-year (thorough: three-year) method schedule, with 1 (2) deviations in disposal type / UTC offset / amount scale and with sheet order reversed; on every node a monitor checks that no strictly better-ranked lot with balance was passed over, and tie-free traces must equal the reference matcher's pairing. This is the deepest level the family offers for a sequential matcher: all interleavings within the bound, none sampled. Also: a purchase carrying a large fiat fee at every purchase position (fee-inclusive unit cost ranks differently from spot price) and same-instant events falling under different methods of a schedule. A front-end phase (spreadsheet -> parse_ods -> compute_tax, both sheet orders) runs the tree over an alphabet with acquisitions paying a crypto fee (the parser's fee-only disposals take lots in method order too).",
         note="Trusts the reference model in rp2verif/models/lots.py (40 lines, exact rationals); histories outside the alphabet or deeper than the completed depth are not covered; ties on the primary key are deliberately not ordered.",
         design="3/C01",
     ),
     "C02": dict(
         category="model_checking",
         technique="explicit-state exploration of the real lot matcher over valid and over-spending histories, cumulative-balance reference model, exact conservation sums",
-        text="Every history (valid or over-spending, S(ALL) enabled at every node) up to depth 4 (thorough 5) x every method / two-year schedule x amount scales down to 1e-11: the run must fail iff some instant's cumulative disposals exceed cumulative acquisitions; on success per-disposal sums equal amount+fee exactly, no lot is overspent or later than its event, and a sold-out holding leaves every lot exactly exhausted. Also: a fee-bearing transfer inside one account, and every history re-run with a from-date on its last day (acceptance and rejection must not depend on the window).",
+        text="Every history (valid or over-spending, S(ALL) enabled at every node) up to depth 4 (thorough 5) x every method / two-year schedule x amount scales down to 1e-11: the run must fail iff some instant's cumulative disposals exceed cumulative acquisitions; on success per-disposal sums equal amount+fee exactly, no lot is overspent or later than its event, and a sold-out holding leaves every lot exactly exhausted. Also: a fee-bearing transfer inside one account, and every history re-run with a from-date on its last day (acceptance and rejection must not depend on the window). A front-end phase (spreadsheet -> parse_ods -> compute_tax, both sheet orders) runs valid and over-spending histories over an alphabet with purchases and income paying a crypto fee (the parser's fee-only disposals must be covered and conserved like any other).",
         note="Trusts the cumulative-balance model; over-spent nodes are extended one level only (every longer extension contains the same uncovered disposal).",
         design="3/C02",
     ),
